@@ -130,15 +130,19 @@ RefNormParts(u, o) ==
       \* query: entities, split, decode-aware filter, sort
       q1 == IF o.fix THEN FixAmpEntities(c0.query) ELSE c0.query
       hostl0 == HostLabels(c0.host)
-      hostl1 == IF o.sub THEN StripSubdomains(hostl0, o.amp) ELSE hostl0
+      \* (a host is never stripped down to nothing: 'www.', 'amp-')
+      HostOr(x, fallback) == IF JoinWith(x, 46) = <<>> THEN fallback ELSE x
+      hostl1 == IF o.sub THEN HostOr(StripSubdomains(hostl0, o.amp), hostl0) ELSE hostl0
       \* what follows 'amp-' can be an irrelevant subdomain too ('amp-www.x.com')
-      hostl2a == IF o.amp THEN StripAmpDash(hostl1) ELSE hostl1
-      hostl2 == IF o.amp /\ o.sub /\ hostl2a # hostl1 THEN StripSubdomains(hostl2a, o.amp) ELSE hostl2a
+      hostl2a == IF o.amp /\ JoinWith(hostl1, 46) # <<97, 109, 112, 45>> THEN StripAmpDash(hostl1) ELSE hostl1
+      hostl2 == IF o.amp /\ o.sub /\ hostl2a # hostl1 THEN HostOr(StripSubdomains(hostl2a, o.amp), hostl2a) ELSE hostl2a
       hostl == IF o.lang THEN StripLang(hostl2) ELSE hostl2
       raw == SelectSeq(SplitOn(q1, 38), LAMBDA it : it # <<>>)
-      triples == [i \in 1..Len(raw) |-> LET kv == SplitFirst(raw[i], 61) IN <<LowIf(o, QU(o.quoted, "qitem", kv[1])), LowIf(o, QU(o.quoted, "qitem", kv[2])), kv[3]>>]
+      \* items are unquoted, filtered and sorted first; quoted mode quotes them afterwards (so both modes keep the same order)
+      triples == [i \in 1..Len(raw) |-> LET kv == SplitFirst(raw[i], 61) IN <<LowIf(o, Unq("qitem", kv[1])), LowIf(o, Unq("qitem", kv[2])), kv[3]>>]
       kept == SelectSeq(triples, LAMBDA t : ~IrrelevantItem(Decode(t[1]), Decode(t[2]), t[3], o.amp, o.lang, HostLabels(c0.host)))
-      items == IF o.sort THEN SortItems(kept) ELSE kept
+      items0 == IF o.sort THEN SortItems(kept) ELSE kept
+      items == [i \in 1..Len(items0) |-> <<QU(o.quoted, "qitem", items0[i][1]), QU(o.quoted, "qitem", items0[i][2]), items0[i][3]>>]
       query == JoinWith([i \in 1..Len(items) |-> IF items[i][3] THEN items[i][1] \o <<61>> \o items[i][2] ELSE items[i][1]], 38)
       \* path
       trailing0 == PathDen(c0.path).trailing           \* a literal trailing slash, or a path ending with a dot segment
